@@ -1,7 +1,6 @@
 import VOPyVerif.Proofs.NaiveModel
 import VOPyVerif.Proofs.NaiveCompose
 import VOPyVerif.Props.C13
-import VOPyVerif.Proofs.GenAgreeC08
 /-!
 # C08 — NaiveElimination with its default sample count is (ε, δ)-PAC; its reported P is always the
 exact Pareto set of the per-design means of all observations so far
@@ -355,55 +354,5 @@ theorem naive_code_count_suffices_of_var_ge_one (K : ℕ) (hK : 2 ≤ K) (nv ε 
     (Real.sqrt_pos.mpr (by linarith)) hβ hε hδ hδ1
   rw [RealLike.sqrt_real]
   nlinarith
-
-/-! ## SOURCE AGREEMENT — the sample-count term is the term read off the current Python source
-
-Second tie between model and code (DESIGN §2.10), beside the numeric comparison at `Float`:
-`harness/translate.py` regenerates `Gen/C08.lean` from the *source text* of
-`NaiveElimination.__init__` (branch `L is None`) and of `ConeTheta2D.beta` on every `./check C08`
-(Python `ast`; `c`, `ordering_complexity` inlined / read as parameters; nothing executed), and the
-theorems below are re-checked against the regenerated file.  Level: **polymorphic**
-(`∀ α [RealLike α]`); `source_coneBeta` by `rfl`; the two `L` theorems under `2 ≤ K`, because the
-source divides by `max(K·(K−1), 1)` over Python integers while the hand term has `ofNat (K·(K−1))`
-— for `2 ≤ K` the integers are equal (`GenAgree.C08.pairCount_eq`), the rest is `rfl`.  The source
-term carries `np.sqrt(noise_var)` in the position of σ: it agrees with `naiveLprop` (the count the
-PAC theorem needs), not with the pre-repair `naiveLcode` (finding D1); a regression to the variance
-breaks `source_naiveLreal` / `source_naiveL`. -/
-
-section SourceAgreement
-variable {α : Type} [RealLike α]
-
-/-- `ConeTheta2D.beta` as written in the source = `coneBeta` (polymorphic, `rfl`). -/
-theorem source_coneBeta [LtB α] (θdeg : α) : Gen.C08.gen_coneBeta θdeg = coneBeta θdeg :=
-  GenAgree.C08.gen_coneBeta_eq θdeg
-
-/-- The argument of `np.ceil` in `NaiveElimination.__init__` as written in the source =
-`naiveLreal naiveC (sqrt noise_var) β ε δ m K` (polymorphic; for `2 ≤ K`). -/
-theorem source_naiveLreal (nv β ε δ : α) (m K : Nat) (hK : 2 ≤ K) :
-    Gen.C08.gen_naiveLreal nv β ε δ m K = naiveLreal naiveC (RealLike.sqrt nv) β ε δ m K :=
-  GenAgree.C08.gen_naiveLreal_eq nv β ε δ m K hK
-
-/-- `self.L = np.ceil(…).astype(int)` as written in the source, for a `ConeTheta2D` order
-(`ordering_complexity = coneBeta θdeg`) = `naiveLprop` (polymorphic; for `2 ≤ K`). -/
-theorem source_naiveL [LtB α] [CeilNat α] (nv ε δ θdeg : α) (m K : Nat) (hK : 2 ≤ K) :
-    Gen.C08.gen_naiveL nv (coneBeta θdeg) ε δ m K = naiveLprop nv ε δ θdeg m K :=
-  GenAgree.C08.gen_naiveL_eq nv ε δ θdeg m K hK
-
-end SourceAgreement
-
-/-- **(ε, δ)-PAC with the sample count read off the source.**  `naive_pac_accuracy` with the
-hypothesis on `L` stated for the source-derived term: running at least
-`gen_naiveL noise_var (β of the θ-cone) ε δ 2 K` rounds — the expression `naive_elimination.py`
-assigns to `self.L`, with `ordering_cone.py`'s `beta` — makes the reported Pareto set inaccurate
-with probability at most `δ`. -/
-theorem source_naive_pac_accuracy (W : Cone2) (θdeg : ℝ) (hW : ThetaCone W θdeg)
-    (K : ℕ) (hK : 2 ≤ K) (nv : ℝ≥0) (hnv : nv ≠ 0) (ε δ : ℝ)
-    (hε : 0 < ε) (hδ : 0 < δ) (hδ1 : δ ≤ 1)
-    (L : ℕ) (hL : Gen.C08.gen_naiveL (nv : ℝ) (Gen.C08.gen_coneBeta θdeg) ε δ 2 K ≤ L)
-    (mu : ℕ → ℝ × ℝ) :
-    (noiseMeasure (NoiseIdx K L) nv).real
-        {ξ | ¬ Accurate W mu K ε (Pareto.fast W.domB (sampleMeansR mu ξ))} ≤ δ := by
-  rw [source_coneBeta, source_naiveL _ _ _ _ _ _ hK] at hL
-  exact naive_pac_accuracy W θdeg hW K hK nv hnv ε δ hε hδ hδ1 L hL mu
 
 end VOPy.C08
